@@ -737,6 +737,11 @@ class Interp:
         raise Unanalysable("not sliceable: %r" % (v,))
 
     def index_place(self, cur, idx, from_end=False):
+        tgt = cur if isinstance(cur, SlicePtr) else cur.get()
+        if isinstance(tgt, Ptr):
+            tgt = tgt.get()
+        if hasattr(tgt, "sym_at"):
+            return tgt.sym_at(idx)
         if not isinstance(idx, int):
             raise Unanalysable("symbolic index")
         s = self.as_slice(cur)
@@ -903,7 +908,11 @@ class Interp:
             elif r["op"] == "Neg":
                 v = -x
             elif r["op"] == "PtrMetadata":
-                v = x.len if isinstance(x, SlicePtr) else len(self.as_slice(Ptr([x], 0)).values())
+                xx = x.get() if isinstance(x, Ptr) else x
+                if hasattr(xx, "sym_at"):
+                    v = Term("len", Term(xx.name))
+                else:
+                    v = x.len if isinstance(x, SlicePtr) else len(self.as_slice(Ptr([x], 0)).values())
             else:
                 raise Unanalysable("unop %s" % r["op"])
         elif k == "cast":
